@@ -843,7 +843,7 @@ func (c *v4Cluster) step(step map[string]interface{}) (ev v4Event) {
 		}
 		pend := func(id string) int {
 			n := len(c.srv[id].getRaft().notifyCh)
-			if c.leadPark(id) != nil {
+			if c.leadPark(id) != nil || c.acqw[id] >= 0 {
 				n++
 			}
 			return n
@@ -980,9 +980,11 @@ func (c *v4Cluster) cleanup() {
 		}
 		return true
 	})
-	ctx, cancel := context.WithTimeout(context.Background(), v4Deadline)
-	c.srv["a"].api.DeleteStream(ctx, &client.DeleteStreamRequest{Name: c.stream})
-	cancel()
+	if c.srv["a"].metadata.GetStream(c.stream) != nil {
+		ctx, cancel := context.WithTimeout(context.Background(), v4Deadline)
+		c.srv["a"].api.DeleteStream(ctx, &client.DeleteStreamRequest{Name: c.stream})
+		cancel()
+	}
 	if err := c.srv["a"].getRaft().Barrier(v4Deadline).Error(); err != nil {
 		v4Fatal("barrier: %v", err)
 	}
